@@ -7,6 +7,10 @@ Tie: stream `wf`.
   (b) every construct a monitor does not support must raise RTAMTException no later than the first
       evaluation: future operators in the online monitor (model: initTree = error rtamt, C17_online_rejects),
       unbounded future in pastify() (model: hor? = none); dense time: harness/dense.py.
+  (c) stream `wf/reuse`: ONE online specification object whose first update() is rejected (bounded future without pastify(),
+      a bound that is no multiple of the sampling period, a construct the monitor never supports) and is then used again: the
+      supported continuation (pastify() / set_sampling_period(), then the trace) returns normally with the values a fresh object
+      given the same calls returns; an unsupported construct is rejected with RTAMTException at the 2nd and 3rd update() too.
 Outcome classes compared: ok / rtamt / other:<ExceptionType>.
 """
 from .. import common, formula as F, impl, disc
@@ -14,7 +18,9 @@ from ..common import same_vals
 from ..engine import Violation, Ctx
 
 RULE = ("(a) random supported formulas per monitor kind with n in {1,1,2,3,..8}, 0-2 surplus declared variables (supplied or not), "
-        "shuffled input order; (b) formulas containing at least one unsupported operator for the monitor kind. distinct by "
+        "shuffled input order; (b) formulas containing at least one unsupported operator for the monitor kind; "
+        "(c) one online object (discrete / dense) used again after a rejected first update(): pastify() or set_sampling_period() "
+        "then the trace, or two more update() of an unsupported specification. distinct by "
         "(monitor, spec, data shape); non-trivial: all cases count (outcome class is the observable), at least one operator.")
 EXPLANATION = ("theorems: C17_offline_total, C17_offline_order_irrelevant, C17_online_total (corollaries of C01/C02 for the tables of "
                "the current tree: no IndexError/ValueError/KeyError reachable, any n>=1, surplus variables, any order), "
@@ -264,7 +270,238 @@ def run_both(text, vs, data, order):
     return True, "returns normally"
 
 
+# ------------------------------------------------------------------ one object used again after a rejected update()
+REUSE_VARIANTS = ["d-pastify", "d-pastify", "d-period", "d-stay", "c-pastify", "c-stay"]
+
+
+def _has(f, pred):
+    return any(pred(x) for x in F.subformulas(f))
+
+
+def gen_reuse(rng):
+    """One ONLINE specification object whose first update() is rejected, and what the user does with the same object next:
+      d-pastify / c-pastify  bounded future operators without pastify(): rejected; pastify(); the trace from its start
+      d-period               a bound that is not a multiple of the (default) sampling period: rejected; set_sampling_period()
+                             to a period all bounds are multiples of; the trace from its start
+      d-stay / c-stay        a construct the monitor never supports: update() three times
+    (d = discrete time, c = dense time)."""
+    from .. import dense
+    variant = rng.choice(REUSE_VARIANTS)
+    case = {"kind": "reuse", "variant": variant, "period": None}
+    if variant.startswith("d"):
+        if variant == "d-pastify":
+            g = F.Gen(rng, VARS, {"arith", "cmp", "bool", "past", "bpast", "bfuture", "buntil", "bsince", "since", "not", "event"}, max_bound=3)
+            f = g.formula(rng.choice([1, 2, 3]))
+            if not _has(f, lambda x: (x[0] == "tb1" and x[1] in ("ev", "alw")) or (x[0] == "tb2" and x[1] == "until")):
+                f = inject(rng, g, f, [("tb1", "ev"), ("tb1", "alw"), ("tb2", "until")])
+            n = rng.choice([1, 2, 3, 5, 7])
+        elif variant == "d-period":
+            g = F.Gen(rng, VARS, F.PAST_ONLY - {"fn"}, max_bound=5)
+            f = g.formula(rng.choice([1, 2, 3]))
+            if not _has(f, lambda x: x[0] in ("tb1", "tb2") and (x[2] % 2 == 1 or x[3] % 2 == 1)):
+                a = rng.choice([0, 1, 2, 3])
+                b = a + rng.choice([0, 1, 2])
+                if a % 2 == 0 and b % 2 == 0:
+                    b += 1
+                f = ("b", rng.choice(["and", "or"]), f, ("tb1", rng.choice(["once", "hist"]), a, b, g.formula(1)))
+            case["period"] = rng.choice([[500, "ms"], [0.5, "s", 0.1]])          # bounds are written as multiples of 0.5 s
+            n = rng.choice([1, 2, 4, 7])
+        else:
+            g = F.Gen(rng, VARS, F.PAST_ONLY - {"fn"}, max_bound=4)
+            f = inject(rng, g, g.formula(rng.choice([1, 2])), FUTURE_OPS)
+            n = 3
+        vs = sorted(F.variables(f)) or ["a"]
+        case.update(f=f, n=n, data=F.gen_trace(rng, vs, n))
+        return case
+    g = dense.DGen(rng, dense.VARS[:2], dense.DENSE_ON | ({"bfuture"} if variant == "c-pastify" else set()), max_bound=4)
+    f = g.formula(rng.choice([1, 2]))
+    if variant == "c-pastify":
+        if not _has(f, lambda x: x[0] == "tb1" and x[1] in ("ev", "alw")):
+            f = inject(rng, g, f, [("tb1", "ev"), ("tb1", "alw")])
+    else:
+        f = inject(rng, g, f, dense.DENSE_UNSUPPORTED_BOTH + dense.DENSE_UNSUPPORTED_ONLINE)
+    vs = sorted(F.variables(f)) or ["x"]
+    sig = dense.gen_signals(rng, vs)
+    stamps = sorted({t for s in sig.values() for (t, _) in s})[1:]
+    k = 2 if variant == "c-stay" else rng.choice([0, 1, 2])
+    cuts = sorted(rng.sample(stamps, min(k, len(stamps))))
+    while variant == "c-stay" and len(cuts) < k:          # a short signal: the later updates bring samples after its end
+        cuts.append((cuts[-1] if cuts else max(stamps + [0])) + 1)
+    case.update(f=f, sig=sig, cuts=cuts)
+    return case
+
+
+def _same(a, b):
+    if isinstance(a, (list, tuple)) and isinstance(b, (list, tuple)):
+        return len(a) == len(b) and all(_same(x, y) for x, y in zip(a, b))
+    return a == b or (a != a and b != b)
+
+
+def reuse_run(case):
+    """-> (text, same, fresh): the outcome of every call made on the one object (first the update() that is to be rejected, then
+    for the continuation variants the configuration call and the updates until one does not return; for the 'stay' variants two
+    more updates), and the outcomes of the continuation on a fresh object (None for the 'stay' variants)."""
+    from .. import dense
+    variant, f, per = case["variant"], case["f"], case.get("period")
+    if variant.startswith("c"):
+        text = dense.spec_text(f)
+        vs = sorted(case["sig"])
+        nup, chunks = dense.online_chunks(case["sig"], case["cuts"])
+
+        def call(s, i):
+            return s.update(*[[v, dense.py_sig(chunks[v][i])] for v in vs])
+    else:
+        text = "out = " + F.to_text(f, bound=(lambda k: repr(k * 0.5)) if per else (lambda k: str(k)))
+        vs = sorted(case["data"])
+        nup = case["n"]
+
+        def call(s, i):
+            return s.update(i * 0.5 if per else i, [(v, case["data"][v][i]) for v in vs])
+
+    def new():
+        s = impl.make_spec("onc" if variant.startswith("c") else "ond", text, vs)
+        s.parse()
+        return s
+
+    def config(s):
+        return s.set_sampling_period(*per) if variant == "d-period" else s.pastify()
+
+    def continuation(s):
+        outs = [impl.guarded(lambda: config(s))]
+        for i in range(nup):
+            if outs[-1][0] != "ok":
+                break
+            outs.append(impl.guarded(lambda: call(s, i)))
+        return outs
+
+    made = impl.guarded(new)
+    if made[0] != "ok":
+        return text, None, made
+    s = made[1]
+    if variant.endswith("stay"):
+        return text, [impl.guarded(lambda: call(s, i)) for i in range(3)], None
+    same = [impl.guarded(lambda: call(s, 0))] + continuation(s)
+    return text, same, continuation(new())
+
+
+def check_reuse(ctx, case):
+    """Violation or None.  Judged: the exception class of a rejected call; that the well-formed continuation returns normally;
+    its values against those of a fresh object that is configured by the same calls."""
+    from .. import dense
+    text, same, fresh = reuse_run(case)
+    variant = case["variant"]
+    rep = {"kind": "reuse", "variant": variant, "spec": text, "formula": F.to_proto(case["f"]), "period": case.get("period"),
+           "calls": "parse(); update() [to be rejected]; " + ("update(); update()" if variant.endswith("stay") else
+                                                               "%s; update() x %d from the start of the trace"
+                                                               % ("set_sampling_period(%s)" % ", ".join(map(repr, case["period"]))
+                                                                  if variant == "d-period" else "pastify()",
+                                                                  len(case["cuts"]) + 1 if "cuts" in case else case["n"])),
+           "impl": same, "fresh": fresh}
+    if variant.startswith("c"):
+        rep.update(signals=dense.sig_rep(case["sig"]), cuts=[str(c) for c in case["cuts"]])
+    else:
+        rep.update(n=case["n"], data=case["data"])
+    ctx.nontrivial.add(("reuse", variant, text, str(rep.get("signals") or rep.get("data")), str(rep.get("cuts"))))
+
+    def bad(stage, what):
+        rep["stage"] = stage
+        return Violation("one %s online specification object, %s: %s: %s"
+                         % ("dense-time" if variant.startswith("c") else "discrete-time", variant, what, text), rep, stream="wf/reuse")
+    if same is None:
+        ctx.count("reuse:not-constructed")                         # parse() of a generated text raised: not this stream's subject
+        return None
+    if variant.endswith("stay"):
+        for k, o in enumerate(same):
+            if o[0] != "rtamt":
+                return bad("update#%d" % (k + 1), "update() no. %d of an unsupported specification is not rejected with RTAMTException "
+                           "(outcome %r)" % (k + 1, o[:2] if o[0] != "ok" else "ok"))
+        return None
+    if same[0][0] != "rtamt":
+        if variant == "d-period":
+            ctx.count("reuse:first-update-not-rejected")           # not a construct the property lists: nothing to judge
+            return None
+        return bad("first", "bounded future operator without pastify() not rejected with RTAMTException (outcome %r)"
+                   % (same[0][:2] if same[0][0] != "ok" else "ok",))
+    if any(o[0] != "ok" for o in fresh):
+        ctx.count("reuse:fresh-object-raises")                     # the business of the other streams
+        return None
+    what = "pastify()" if variant.endswith("pastify") else "set_sampling_period(%s)" % ", ".join(map(repr, case["period"]))
+    for k, o in enumerate(same[1:]):
+        if o[0] != "ok":
+            return bad("continuation", "after the rejected update() and %s, %s raised %r; a fresh object given the same calls returns normally"
+                       % (what, what if k == 0 else "update() no. %d" % k, o[1:]))
+    for k, (o, r) in enumerate(zip(same[2:], fresh[1:])):
+        if not _same(o[1], r[1]):
+            return bad("values", "after the rejected update() and %s, update() no. %d returned %r; a fresh object given the same calls %r"
+                       % (what, k + 1, o[1], r[1]))
+    return None
+
+
+def shrink_reuse(ctx, case, v0, budget=40):
+    """Smaller formula / shorter trace that fails at the same stage."""
+    stage = v0.replay.get("stage")
+    scratch = Ctx(ctx.id, ctx.tier, ctx.seed)
+
+    def fails(c):
+        try:
+            v = check_reuse(scratch, c)
+        except Exception:       # noqa: a candidate the generators would not produce
+            return None
+        return v if v is not None and v.replay.get("stage") == stage else None
+    cur, best = case, v0
+    improved = True
+    while improved and budget > 0:
+        improved = False
+        cands = [dict(cur, f=g) for g in F.shrink_candidates(cur["f"])]
+        if "n" in cur and cur["n"] > (3 if cur["variant"].endswith("stay") else 1):
+            cands.insert(0, dict(cur, n=cur["n"] - 1, data={k: v[:-1] for k, v in cur["data"].items()}))
+        if cur.get("cuts") and not cur["variant"].endswith("stay"):
+            cands.insert(0, dict(cur, cuts=cur["cuts"][:-1]))
+        for c in cands:
+            budget -= 1
+            if budget < 0:
+                break
+            v = fails(c)
+            if v is not None:
+                cur, best, improved = c, v, True
+                break
+    return best
+
+
+def reuse_case_of_rep(obj):
+    from fractions import Fraction
+    from .. import dense
+    c = {"kind": "reuse", "variant": obj["variant"], "f": F.from_proto(obj["formula"]), "period": obj.get("period")}
+    if obj["variant"].startswith("c"):
+        c.update(sig=dense.sig_of_rep(obj["signals"]), cuts=[Fraction(x) for x in obj["cuts"]])
+    else:
+        c.update(n=obj["n"], data={k: [float(x) for x in v] for k, v in obj["data"].items()})
+    return c
+
+
+def reuse_stream(ctx, rng, count):
+    """The same specification object after an update() that was rejected (F54's neighbourhood: what the object remembers about
+    having handed its AST to the interpreter): the supported continuation returns normally with the values of a fresh object;
+    an unsupported construct is rejected with RTAMTException on every call, not only on the first."""
+    for _ in range(count):
+        c = gen_reuse(rng)
+        ctx.evaluations += 1
+        ctx.count("kind:reuse/" + c["variant"])
+        v = check_reuse(ctx, c)
+        if v is None:
+            ctx.traces_validated += 1
+            if c["variant"] in ("d-pastify", "c-stay"):
+                ctx.sample({"kind": "reuse/" + c["variant"], "spec": "out = " + F.to_text(c["f"])}, limit=6)
+        else:
+            ctx.violations.append(shrink_reuse(ctx, c, v))
+            if len(ctx.violations) >= 3:
+                return
+
+
 def replay(ctx, obj):
+    if obj.get("kind") == "reuse":
+        v = check_reuse(Ctx(ctx.id, ctx.tier, ctx.seed), reuse_case_of_rep(obj))
+        return (v is None), (v.what if v else "outcome as required on the replayed call sequence")
     if obj.get("kind") == "both":
         ok, what = run_both(obj["spec"], sorted(obj["data"]), obj["data"], obj["order"])
         return ok, what
@@ -289,6 +526,8 @@ def run(ctx):
         modular_stream(ctx, ctx.subrng("wf-mod"), ctx.budget(300, 4000))
     if not ctx.violations:
         both_modes_stream(ctx, ctx.subrng("wf-both"), ctx.budget(150, 1500))
+    if not ctx.violations:
+        reuse_stream(ctx, ctx.subrng("wf-reuse"), ctx.budget(200, 2000))
     if not ctx.violations:
         try:
             from .. import dense
